@@ -5,3 +5,4 @@ pub mod sierra_args;
 pub mod rare;
 pub mod constexpr;
 pub mod sierramut;
+pub mod own;
